@@ -17,6 +17,19 @@ functions are wrapped *for observation only* (they call the original).
 
 A kill parks the thread forever (no `finally` runs — SIGKILL / node loss); an injected failure raises or
 returns non-zero at the boundary.
+
+Faults at the boundary (every process kind, node runners included):
+  * external command returns non-zero (`fail_ext`); `scancel` of an id that is no longer queued/running returns 1
+    ("Invalid job id specified"), as real SLURM does for purged ids;
+  * external command HANGS (`hang`): the process stays parked at its EXT point for T virtual seconds.  Virtual
+    seconds (`now`) pass through `time.sleep` of the other processes; while a hang is pending, sleepers wake in the
+    order of their wake-up times (so 60 one-second retries of one process fit into a 100 s hang of another even if a
+    third one sleeps 60 s at a time), everything else stays freely interleaved;
+  * file mutation fails BEFORE it happens (`fail_write`, EDQUOT raised by open/rename/remove/touch) or AFTER the
+    open succeeded (`late`: the file is created / truncated by the real open, the first write raises EDQUOT - what
+    quota and ENOSPC errors usually look like); the same two flavours for a kill (`kill_in`; a process killed
+    between open and close leaves the truncated file, its buffered writes are lost);
+  * lock acquisition times out.
 """
 import builtins
 import errno
@@ -66,6 +79,9 @@ class VProc:
         self.kill_in = None         # die before the k-th file mutation of the next step (0-based)
         self.fail_write = None      # the k-th file mutation of the next step raises EDQUOT
         self.lock_timeout = False   # next lock acquisition times out
+        self.late = False           # kill_in / fail_write strike after the open succeeded (file created/truncated, nothing written)
+        self.hang_until = None      # parked at an external command until virtual time `now` reaches this
+        self.wake_at = None         # virtual wake-up time of the time.sleep it is in
         self.mut_count = 0
         self.holding = []           # lock markers held
         self.batch = None           # for node processes
@@ -161,6 +177,7 @@ class VCluster:
         self.next_hpc = 100
         self.jobprocs = []         # FakeJobProc
         self.clock = 0
+        self.now = 0.0             # virtual seconds: advanced by the sleeps of the processes (and `tick`)
         self.base_env = {"USER": "verif", "PATH": os.environ.get("PATH", ""), "HOME": os.environ.get("HOME", "/root"),
                          "JADE_REGISTRY": os.environ.get("JADE_REGISTRY", "")}
         self.config = None
@@ -183,6 +200,7 @@ class VCluster:
         p.at = (kind, detail)
         p.kill_in = None      # killIn / failWrite apply to one step only
         p.fail_write = None
+        p.late = False
         self._save_env(p)
         self.back.set()
         p.wake.wait()
@@ -191,6 +209,10 @@ class VCluster:
             self._park()
         self._load_env(p)
         p.mut_count = 0
+        p.hang_until = None
+        if kind == "SLEEP" and p.wake_at is not None:
+            self.now = max(self.now, p.wake_at)
+            p.wake_at = None
 
     def _park(self):
         # SIGKILL: the thread never runs another line of JADE code
@@ -284,6 +306,14 @@ class VCluster:
         if p.state != "ready":
             return False
         k, d = p.at
+        if p.hang_until is not None and self.now < p.hang_until:
+            return False
+        if k == "SLEEP" and p.wake_at is not None and self.hang_active():
+            # while a hang is pending virtual time matters: sleepers wake in the order of their wake-up times
+            others = [q.wake_at for q in self.procs.values() if q is not p and q.state == "ready" and q.at[0] == "SLEEP"
+                      and q.wake_at is not None]
+            if others and p.wake_at > min(others):
+                return False
         if k == "ACQ":
             return self.lock_free(d) or p.lock_timeout
         if k == "WAIT":
@@ -293,6 +323,29 @@ class VCluster:
 
     def live(self):
         return [p for p in self.procs.values() if p.state == "ready"]
+
+    # ------------------------------------------------------------------ hanging external commands, virtual time
+    def hung(self):
+        return [p for p in self.procs.values() if p.state == "ready" and p.hang_until is not None and self.now < p.hang_until]
+
+    def hang_active(self):
+        return bool(self.hung())
+
+    def hang(self, pid, seconds):
+        """the external command process `pid` is about to run (squeue/sbatch/scancel) takes `seconds` to answer"""
+        p = self.procs[pid]
+        self.step_no += 1
+        if p.state == "ready" and p.at[0] == "EXT":
+            p.hang_until = self.now + seconds
+            self.log("hangext", pid, seconds, str(p.at[1]).split(" ")[0])
+
+    def tick(self):
+        """nobody sleeps: time passes anyway, up to the end of the earliest pending hang"""
+        self.step_no += 1
+        h = self.hung()
+        if h:
+            self.now = min(q.hang_until for q in h)
+            self.log("tick", self.now)
 
     # ------------------------------------------------------------------ patches
     def install(self):
@@ -320,6 +373,7 @@ class VCluster:
         class FakeTime:
             @staticmethod
             def sleep(s):
+                vc.cur().wake_at = vc.now + float(s)
                 vc.yield_point("SLEEP", s)
 
             @staticmethod
@@ -373,38 +427,88 @@ class VCluster:
             except Exception:
                 return False
 
+        def die_here(p):
+            p.killed = True
+            p.state = "dead"
+            if p.kind == "node":
+                for jp in vc.jobprocs:
+                    if jp.node == p.pid and jp.returncode is None:
+                        jp.exited = None
+                b = vc.slurm.get(p.hpc_id)
+                if b and b["state"] == "running":
+                    b["state"] = "ended"
+            vc.back.set()
+            vc._park()
+
         def mutation(path, how):
+            """-> None, or "faillate" / "killlate": the caller (tracked_open) lets the real open happen first"""
             if getattr(_tls, "pid", None) not in vc.procs:
-                return
+                return None
             p = vc.cur()
             if not under_out(path):
-                return
+                return None
             base = os.path.basename(str(path))
             if base.endswith(".log") or base.endswith(".lock") and how == "lock":
-                return
+                return None
             k = p.mut_count
             p.mut_count += 1
+            late = p.late and how.startswith("open-")
             if p.kill_in is not None and k == p.kill_in:
                 p.kill_in = None
-                p.killed = True
-                p.state = "dead"
+                if late:
+                    # SIGKILL between open and close: the file exists / is truncated, buffered writes are lost
+                    vc.log("killin", p.pid, p.kind, k, base, "late")
+                    return "killlate"
                 vc.log("killin", p.pid, p.kind, k, base)
-                if p.kind == "node":
-                    b = vc.slurm.get(p.hpc_id)
-                    if b and b["state"] == "running":
-                        b["state"] = "ended"
-                vc.back.set()
-                vc._park()
+                die_here(p)
             if p.fail_write is not None and k == p.fail_write:
                 p.fail_write = None
+                if late:
+                    vc.log("failwrite", p.pid, k, base, "late")
+                    return "faillate"
                 vc.log("failwrite", p.pid, k, base)
                 raise OSError(errno.EDQUOT, "Disk quota exceeded", str(path))
             vc.log("mut", p.pid, base, how, tuple(os.path.basename(h) for h in p.holding))
+            return None
+
+        class LateFailFile:
+            """a file that was opened successfully (created / truncated) on a filesystem that is over quota / full:
+            the error surfaces at the first write (nothing reaches the disk)"""
+
+            def __init__(s, f, path):
+                s.__dict__["_f"] = f
+                s.__dict__["_path"] = str(path)
+
+            def write(s, data):
+                raise OSError(errno.EDQUOT, "Disk quota exceeded", s._path)
+
+            def writelines(s, lines):
+                raise OSError(errno.EDQUOT, "Disk quota exceeded", s._path)
+
+            def __enter__(s):
+                return s
+
+            def __exit__(s, *a):
+                s._f.close()
+                return False
+
+            def __iter__(s):
+                return iter(s._f)
+
+            def __getattr__(s, n):
+                return getattr(s._f, n)
 
         def tracked_open(file, mode="r", *a, **kw):
+            how = None
             if isinstance(file, (str, os.PathLike)) and any(c in mode for c in "wa+x"):
-                mutation(file, "open-" + mode)
-            return REAL_OPEN(file, mode, *a, **kw)
+                how = mutation(file, "open-" + mode)
+            f = REAL_OPEN(file, mode, *a, **kw)
+            if how == "killlate":
+                f.close()
+                die_here(vc.cur())
+            if how == "faillate":
+                return LateFailFile(f, file)
+            return f
 
         class OsProxy:
             def __init__(s, real):
@@ -623,17 +727,23 @@ class VCluster:
         if c0 == "scancel":
             i = int(command[1])
             self.log("scancel", p.pid, i)
-            if failing:
-                return 1, "", "scancel: error"
             b = self.slurm.get(i)
-            if b:
-                if b["state"] == "pending":
-                    b["state"] = "cancelled"
-                elif b["state"] == "running":
-                    b["state"] = "cancelled"
-                    if b["node"] is not None:
-                        self.kill(b["node"])
-                        self.slurm[i]["state"] = "cancelled"
+            alive = bool(b) and b["state"] in ("pending", "running")
+            if failing:
+                # transient controller error: nothing happens to the batch
+                self.log("scancelfail", p.pid, i, "transient", alive)
+                return 1, "", "scancel: error: Kill job error on job id %d: Socket timed out on send/recv operation" % i
+            if not alive:
+                # real scancel of an id that has ended and was purged from the controller's memory
+                self.log("scancelfail", p.pid, i, "invalid", False)
+                return 1, "", "scancel: error: Kill job error on job id %d: Invalid job id specified" % i
+            if b["state"] == "pending":
+                b["state"] = "cancelled"
+            elif b["state"] == "running":
+                b["state"] = "cancelled"
+                if b["node"] is not None:
+                    self.kill(b["node"])
+                    self.slurm[i]["state"] = "cancelled"
             return 0, "", ""
         if c0 == "jade" and len(command) > 1 and command[1] == "try-submit-jobs":
             if failing:
